@@ -1,7 +1,7 @@
 (** Properties_C16.v — C16: wire primitives round-trip exactly and reject what they
     cannot represent.  Statements only; each is closed by [exact] of a lemma proved in
     the *Proofs.v files. *)
-From GW Require Import Base Wire WireProofs Civil CivilSweep CivilProofs.
+From GW Require Import Base Wire WireProofs Civil CivilSweep CivilProofs Quote Utf8Proofs QuoteProofs.
 Local Open Scope Z_scope.
 
 (** ** Depth (0, 1, infinity) *)
@@ -164,3 +164,46 @@ Print Assumptions C16_icaldate_accepts_iff_grammar.
 Theorem C16_icaldate_never_panics : forall s, icaldate_unmarshal s <> Panic.
 Proof. exact icaldate_unmarshal_never_panics. Qed.
 Print Assumptions C16_icaldate_never_panics.
+
+(** ** Entity tags (internal.ETag, webdav.ConditionalMatch.ETag) *)
+
+(** any byte string, whatever strconv.IsPrint says about the runes above U+00FF *)
+Theorem C16_etag_roundtrip : forall (is_print_hi : N -> bool) b,
+  etag_unmarshal (etag_marshal is_print_hi b) = Ok b.
+Proof. exact etag_roundtrip. Qed.
+Print Assumptions C16_etag_roundtrip.
+
+(** strconv.Unquote (strconv.Quote b) = b *)
+Theorem C16_etag_unquote_quote : forall (is_print_hi : N -> bool) b, unquote (quote is_print_hi b) = Some b.
+Proof. exact unquote_quote. Qed.
+Print Assumptions C16_etag_unquote_quote.
+
+(** the decoder accepts exactly the double-quoted interpreted string literals of the Go
+    specification, read leniently (a byte that is not valid UTF-8 stands for U+FFFD),
+    with the bytes they denote *)
+Theorem C16_etag_accepts_iff_lenient_grammar : forall s t, etag_unmarshal s = Ok t <-> dq_den true s = Some t.
+Proof. exact etag_unmarshal_iff. Qed.
+Print Assumptions C16_etag_accepts_iff_lenient_grammar.
+
+(** every strict literal is accepted with the bytes it denotes *)
+Theorem C16_etag_accepts_grammar : forall s t, dq_den false s = Some t -> etag_unmarshal s = Ok t.
+Proof. exact etag_accepts_grammar. Qed.
+Print Assumptions C16_etag_accepts_grammar.
+
+Theorem C16_etag_never_panics : forall s, etag_unmarshal s <> Panic.
+Proof. exact etag_unmarshal_never_panics. Qed.
+Print Assumptions C16_etag_never_panics.
+
+(** rejection side, except the listed finding C16-etag-invalid-utf8 ... *)
+Theorem C16_etag_rejects_except_invalid_utf8 : forall s t,
+  kf_etag_invalid_utf8 s (obs_of (etag_unmarshal s)) = false ->
+  etag_unmarshal s = Ok t -> dq_den false s = Some t.
+Proof. exact etag_rejects_except_invalid_utf8. Qed.
+Print Assumptions C16_etag_rejects_except_invalid_utf8.
+
+(** ... which is real: "\xff" (a raw byte FF between quotes) is accepted as U+FFFD *)
+Theorem C16_etag_rejects_refuted : exists s t,
+  etag_unmarshal s = Ok t /\ dq_den false s = None
+  /\ kf_etag_invalid_utf8 s (obs_of (etag_unmarshal s)) = true.
+Proof. exact etag_rejects_refuted. Qed.
+Print Assumptions C16_etag_rejects_refuted.
